@@ -157,8 +157,14 @@ KeyerViol(op, I, H, pre, i) ==
                         /\ Tail(CL[c].k) = PL[p].k
                         /\ H[CL[c].c].o > I[PL[p].c].o
                         /\ H[CL[c].c].o < (IF PL[p].d = 0 THEN INF ELSE NextOrd(I, PL[p].d))
+        (* every event at the head belongs to a child lifetime: no item or completion
+           for a window / segment / group that is not open *)
+        owned == UNION {{CL[c].c, CL[c].d} \cup {CL[c].its[q] : q \in 1..Len(CL[c].its)}
+                        : c \in 1..Len(CL)}
+        strayEv == \E q \in 1..Len(H) : H[q].t \in {"n", "d"} /\ q \notin owned
         bad == UNION {ParentViol(op, I, H, PL[p], CL) : p \in 1..Len(PL)}
                \cup (IF stray THEN {"-stray-child"} ELSE {})
+               \cup (IF strayEv THEN {"-stray-event"} ELSE {})
     IN {Tag(pre, i, op.op \o s) : s \in bad}
 
 (* demultiplexing: the operator's output carries the parent lifecycle events and
